@@ -57,7 +57,7 @@ class Ctx(object):
         self.rule = ""
         self.known = [k for k in load_findings() if k.get("property") == pid and k.get("status") == "known"]
         # replay files of earlier runs of this property are stale
-        if os.path.isdir(REPLAYS):
+        if os.path.isdir(REPLAYS) and not replay:
             for f in os.listdir(REPLAYS):
                 if f.startswith(pid + "_"):
                     try:
